@@ -254,25 +254,22 @@ impl Service {
     /// 刷新重新纳入本节点管理的实例
     /// 增量http实例增加过期管理
     pub(crate) fn do_refresh_process_range(&mut self) {
-        let instances: Vec<&Arc<Instance>> = self
+        let keys: Vec<InstanceShortKey> = self
             .instances
             .values()
             .filter(|instance| !instance.from_grpc && instance.is_from_cluster())
+            .map(|instance| instance.get_short_key())
             .collect();
-        //log::info!("do_refresh_process_range instance size:{}", instances.len());
-        for instance in instances {
-            /*
-            log::info!(
-                "do_refresh_process_range item,key:{:?},last_modified_millis:{},client_id:{}",
-                instance.get_short_key(),
-                instance.last_modified_millis,
-                &instance.client_id
-            );
-             */
-            self.healthy_timeout_set.add(
-                instance.last_modified_millis as u64,
-                instance.get_short_key(),
-            );
+        //log::info!("do_refresh_process_range instance size:{}", keys.len());
+        for key in keys {
+            if let Some(old) = self.instances.remove(&key) {
+                // this node is the owner now: time_check only supervises instances whose from_cluster is 0
+                let mut instance = old.as_ref().clone();
+                instance.from_cluster = 0;
+                self.healthy_timeout_set
+                    .add(instance.last_modified_millis as u64, key.clone());
+                self.instances.insert(key, Arc::new(instance));
+            }
         }
     }
 
